@@ -1,6 +1,6 @@
 (** Correspondence for C01: identifiers read back from the generated Go files. *)
 From Coq Require Import List String Ascii Bool Arith NArith.
-From GM Require Import Base.Result Base.StrOrd Facts.GoFacts Facts.Ana Model.Enums Model.Names Model.GoScope Model.GoUnionsGen.
+From GM Require Import Base.Result Base.StrOrd Facts.GoFacts Facts.Ana Model.Enums Model.Names Model.GoScope Model.GoUnionsGen Model.RandGen.
 Import ListNotations.
 Local Open Scope string_scope.
 
@@ -12,9 +12,14 @@ Record gobs := {
 }.
 Inductive gu_obs := GuOk (l : list gobs) | GuDiag | GuCrash | GuSkip.
 
+(** the randdata declarations (harness/c01g.go): the function each one defines and those its text calls *)
+Record robs := { ro_id : string; ro_defines : bool; ro_calls : list string }.
+Inductive rd_obs := RdOk (l : list robs) | RdDiag | RdCrash | RdSkip.
+
 Record c01_case := {
   c1_ana : ana_obs;
   c1_gu : gu_obs;
+  c1_rd : rd_obs;
   c1_prog : prog;
   c1_enums : list enum;                          (* hook table *)
   c1_choices : list (string * list string);      (* randdata: enum id -> elements of its choix literal *)
@@ -79,12 +84,39 @@ Definition gu_prop_ok (c : c01_case) : bool :=
   | _ => true
   end.
 
+Definition rd_model (c : c01_case) : result (list rdecl) :=
+  randdata (c1_prog c) (ao_nodes (c1_ana c)) (c1_enums c) 64 (ao_source (c1_ana c)).
+
+Fixpoint robs_list_eqb (a : list rdecl) (b : list robs) : bool :=
+  match a, b with
+  | [], [] => true
+  | x :: a', y :: b' => String.eqb (rd_id x) (ro_id y) && ro_defines y && strs_eqb (rd_calls x) (ro_calls y) && robs_list_eqb a' b'
+  | _, _ => false
+  end.
+
+(** the traversal model reproduces the declaration list of randdata: same functions, same order, same calls *)
+Definition rd_model_ok (c : c01_case) : bool :=
+  match c1_rd c, rd_model c with
+  | RdSkip, _ => true
+  | RdOk l, Ok ds => robs_list_eqb ds l
+  | RdDiag, Diag _ => true
+  | RdCrash, Crash _ => true
+  | _, _ => false
+  end.
+
+(** the conclusion of the closure theorem on the observed list: every function called is defined by the list *)
+Definition rd_prop_ok (c : c01_case) : bool :=
+  match c1_rd c with
+  | RdOk l => forallb (fun d => forallb (fun f => existsb (fun d' => String.eqb f (ro_id d') && ro_defines d') l) (ro_calls d)) l
+  | _ => true
+  end.
+
 Definition chk_model0 (c : c01_case) : bool :=
   forallb (fun ec => match find (fun e => String.eqb (en_id e) (fst ec)) (c1_enums c) with
                      | Some e => strs_eqb (snd ec) (enum_choices (en_members e))
                      | None => false end) (c1_choices c).
 
-Definition chk_model (c : c01_case) : bool := chk_model0 c && gu_model_ok c.
+Definition chk_model (c : c01_case) : bool := chk_model0 c && gu_model_ok c && rd_model_ok c.
 
 Definition chk_prop0 (c : c01_case) : bool :=
   forallb (fun ec => valid_expr_list (snd ec)) (c1_choices c)
@@ -96,7 +128,7 @@ Definition chk_prop0 (c : c01_case) : bool :=
                         | Some p => no_redeclaration (p_scope p) (snd gd)
                         | None => false end) (c1_declared c).
 
-Definition chk_prop (c : c01_case) : bool := chk_prop0 c && gu_prop_ok c.
+Definition chk_prop (c : c01_case) : bool := chk_prop0 c && gu_prop_ok c && rd_prop_ok c.
 
 Section Generic.
   Context {A : Type} (chk : A -> bool).
